@@ -13,7 +13,7 @@
 (*        pos_i  ~  A_j/Q     <=>     k + 2Q*i  ~  2n*A_j .                *)
 (* Indices are 1-based here (TLA+ sequences); the harness shifts by one.   *)
 (***************************************************************************)
-EXTENDS Integers, Sequences, FiniteSets
+EXTENDS Integers, Sequences, FiniteSets, FiniteSetsExt
 
 MinOf(S) == CHOOSE x \in S : \A y \in S : x <= y
 MaxOf(S) == CHOOSE x \in S : \A y \in S : x >= y
@@ -28,7 +28,7 @@ PosGE(n, Q, k, i, A) == k + 2 * Q * i >= 2 * n * A               \* positions[i]
 
 \* offsets (in units 1/(2Q)) at which some tooth coincides with some cumulative sum
 Breakpoints(n, a, Q) ==
-    {2 * n * SumTo(a, j) - 2 * Q * i : i \in 0..(n - 1), j \in DOMAIN a} \cap (0..(2 * Q - 1))
+    {b \in {2 * n * SumTo(a, j) - 2 * Q * i : i \in 0..(n - 1), j \in DOMAIN a} : 0 <= b /\ b < 2 * Q}
 IsBreak(n, a, Q, k) == \E i \in 0..(n - 1), j \in DOMAIN a : k + 2 * Q * i = 2 * n * SumTo(a, j)
 
 -----------------------------------------------------------------------------
@@ -102,6 +102,47 @@ SysFails(c) ==
     \cup (IF shape /\ ~FloorCeil(c.n, c.a, c.Q, c.out) THEN {"floor-ceil"} ELSE {})
     \cup (IF shape /\ Total(c.a) = c.Q /\ ~IsBreak(c.n, c.a, c.Q, c.k)
              /\ c.out # Intended(c.n, c.a, c.Q, c.k).out THEN {"interior"} ELSE {})
+
+-----------------------------------------------------------------------------
+(* The finite partition of the offsets.  The outcome of the comb is constant *)
+(* on every open interval between two consecutive breakpoints, so a finite   *)
+(* set K of offsets covers "every u0 in [0,1)" when it contains 0, every      *)
+(* breakpoint, and a non-breakpoint between any two consecutive breakpoints   *)
+(* (and after the last one).                                                  *)
+
+CoverageOK(n, a, Q, K) ==
+    LET B == Breakpoints(n, a, Q) IN
+    /\ 0 \in K /\ B \subseteq K
+    /\ \A k1 \in K :
+         LET up == {x \in K : x > k1} IN
+         IF up = {} THEN k1 \notin B ELSE ~(k1 \in B /\ MinOf(up) \in B)
+
+\* The partition computed from the breakpoints themselves (used where enumerating all
+\* k/(2Q) is impossible): 0, every breakpoint, its two neighbours at distance one unit, and the
+\* midpoint of every cell.
+PartitionOffsets(n, a, Q) ==
+    LET B    == Breakpoints(n, a, Q)
+        P    == B \cup {0}
+        nxt(x) == LET up == {y \in P : y > x} IN IF up = {} THEN 2 * Q ELSE MinOf(up)
+        mids == {(x + nxt(x)) \div 2 : x \in P}
+        all  == P \cup {b + 1 : b \in B} \cup {b - 1 : b \in B} \cup mids
+    IN  {x \in all : 0 <= x /\ x < 2 * Q}
+
+(* Exact unbiasedness as a counting identity over the cells of a cover K,    *)
+(* outs[k] being the index vector produced at offset k:                      *)
+(*     sum over cells  |cell| * copies_j(cell)  =  n * w_j      (units 1/(2Q)) *)
+(* (up to n*|1 - sum w| when the weights do not sum to exactly one).  The     *)
+(* cell between two consecutive offsets of K is represented by whichever of   *)
+(* the two is not a breakpoint.                                               *)
+AbsVal(x) == IF x < 0 THEN -x ELSE x
+
+UnbiasedOn(n, a, Q, K, outs) ==
+    LET B == Breakpoints(n, a, Q)
+        nxt(k1) == LET up == {x \in K : x > k1} IN IF up = {} THEN 2 * Q ELSE MinOf(up)
+        rep(k1) == IF k1 \in B /\ nxt(k1) \in K THEN nxt(k1) ELSE k1
+    IN  \A jj \in DOMAIN a :
+          LET s == FoldSet(LAMBDA k1, acc : acc + (nxt(k1) - k1) * Copies(outs[rep(k1)], jj), 0, K)
+          IN  AbsVal(s - 2 * n * a[jj]) <= 2 * n * AbsVal(Q - Total(a))
 
 -----------------------------------------------------------------------------
 (* Multinomial: inverse-CDF lookup.  r and cdf[j] are any totally ordered   *)
